@@ -204,11 +204,8 @@ class Sim:
             self.reactions = reactions
             objs = [mk(dict(r, created=now)) for r in recs]
 
-            class Msg:
-                pass
-            m = Msg()
-            m.now = now
-            m.answers = lambda: objs
+            from lib.fakemsg import FakeIncoming
+            m = FakeIncoming(answers=objs, now=now, flags=0x8400)
             n0 = self.zc.notified
             try:
                 self.rm.async_updates_from_response(m)
